@@ -99,6 +99,8 @@ class BGPPeering(BGPFactory):
 
         # reference to the BGPProtocol instance in ESTAB state
         self.estab_protocol = None
+        # the connector of the latest outgoing connection attempt
+        self.connector = None
 
     def buildProtocol(self, addr):
 
@@ -141,6 +143,9 @@ class BGPPeering(BGPFactory):
         :param reason: connection failed reason
         """
 
+        if connector is not self.connector:
+            # a pending attempt which was aborted by ourselves
+            return
         error_msg = "[%s]Client connection failed: %s" % (self.peer_addr, reason.getErrorMessage())
         self.handler.on_connection_failed(self.peer_addr, reason.getErrorMessage())
         LOG.info(error_msg)
@@ -201,6 +206,15 @@ class BGPPeering(BGPFactory):
         if self.fsm.allow_automatic_start:
             self.automatic_start(idle_hold=True)
 
+    def abort_connect(self):
+
+        """Aborts the outgoing connection attempt if it is still pending.
+        """
+        connector, self.connector = self.connector, None
+        if connector is not None and connector.state == 'connecting':
+            LOG.info("[%s]Abort the pending connection attempt", self.peer_addr)
+            connector.stopConnecting()
+
     def connect_retry(self):
 
         """Called by FSM when we should reattempt to connect.
@@ -240,7 +254,9 @@ class BGPPeering(BGPFactory):
 
         if self.fsm.state != bgp_cons.ST_ESTABLISHED:
 
-            connector = reactor.connectTCP(
+            # never leave an earlier attempt pending
+            self.abort_connect()
+            self.connector = connector = reactor.connectTCP(
                 host=self.peer_addr,
                 port=bgp_cons.PORT,
                 factory=self,
